@@ -167,6 +167,10 @@ func ListenTo(inPort drivers.In, recv func(msg Message, timestampms int32), opts
 			}
 		}
 
+		if msg == nil {
+			return
+		}
+
 		recv(msg, millisec)
 	}
 
